@@ -20,6 +20,11 @@ namespace verif {
 
 std::vector<Check>& registry() { static std::vector<Check> r; return r; }
 
+static uint64_t g_caseDigest = 0;
+void obs(uint64_t v) { g_caseDigest = (g_caseDigest ^ v) * 1099511628211ull + 0x9e3779b97f4a7c15ull; }
+void obs(const std::string& s) { uint64_t h = 1469598103934665603ull; for (unsigned char c : s) h = (h ^ c) * 1099511628211ull; obs(h); }
+uint64_t takeCaseDigest() { uint64_t d = g_caseDigest; g_caseDigest = 0; return d; }
+
 double nowMono() { timespec ts; clock_gettime(CLOCK_MONOTONIC, &ts); return ts.tv_sec + ts.tv_nsec * 1e-9; }
 
 std::string jsonEscape(const std::string& s) {
@@ -105,7 +110,9 @@ static void workerLoop(const ParallelOpts& o, int w, int W, uint64_t nblocks, ui
       if (bad.count(i)) continue;
       sl.index = i; sl.start = nowMono(); sl.running = 1;
       ctx.index = i;
+      takeCaseDigest();
       o.run(i, ctx);
+      { uint64_t d = takeCaseDigest(); if (d) { uint64_t h = (d ^ (i * 0x9e3779b97f4a7c15ull)) * 0xff51afd7ed558ccdull; ctx.counters_["__digest_lo"] += h & 0xffffffffull; ctx.counters_["__digest_hi"] += h >> 32; ctx.counters_["__observed_cases"]++; } }
       sl.running = 0;
     }
     std::string payload = "BEGIN\t" + std::to_string(b) + "\n";
